@@ -6,6 +6,12 @@ ROOT = os.path.dirname(os.path.dirname(os.path.abspath(__file__)))
 
 # id -> (category, technique, level text, level note, design ref)
 CHECKS = {
+ "C20": ("exploration",
+   "real-time scenario enumeration on a coarse grid, many connections concurrently, tolerance-zone oracle with a driver-slip guard",
+   "Keep-alive source (client value -> k + k/2, handshake override, v3 disabled) x pattern (dead peer after 0..2 packets at two phases; live peer for three periods, whole or fragmented packets; partial frame stalled / trickling below / above the frame read rate; half a CONNECT against the connect timeout; idle client with keep-alive), "
+   "v3 and v5, repeated at staggered phases of the 1 s timer wheel. Dead peers end inside [T-0.6 s, T+2.2 s] with a keep-alive timeout (v5 DISCONNECT 0x8D), live peers never, slow frames with a read timeout, fast-enough frames are handled, stalled CONNECT dropped, clients write PINGREQ every k+1.2 s.",
+   "Wall-clock check: cases whose driver woke more than 0.3 s late are inconclusive; more than 5 % inconclusive gives exit 2, never a violation.",
+   "DESIGN.md section 3 C20"),
  "C19": ("exploration",
    "bounded-exhaustive enumeration of first packets x cut sets of the first bytes x server kind, enumerated handshake outcomes, and proptest-generated limit tuples probed by behaviour",
    "(a) every first packet (CONNECT name/level/reserved-flag variations, every other v3/v5 packet) against v3-only, v5-only and combined servers, unfragmented, byte-at-a-time and under sampled cut sets, with a pipelined PUBLISH; all cut sets of the first 12 (thorough 15) bytes of the plain CONNECTs on the combined server. "
